@@ -29,6 +29,10 @@ pub struct FaultCase {
 	/// every Poisonable under the target was poisoned beforehand (a panic under the target's guard)
 	#[serde(default)]
 	pub poisoned: bool,
+	/// the call is made by a destructor that runs while the thread unwinds from an unrelated panic (and catches the
+	/// call's own panic): `std::thread::panicking()` is true throughout the call
+	#[serde(default)]
+	pub in_unwind: bool,
 }
 
 pub struct FaultOut {
@@ -73,7 +77,29 @@ pub fn run_fault_case(c: &FaultCase, keep_trace: bool) -> FaultOut {
 			Some(f) => ctl.arm_fault(f.clone()),
 			None => ctl.arm_counting(),
 		}
-		let r = catch_unwind(AssertUnwindSafe(|| interp::acquire(&t, c.write, c.flavour, Body::NONE, key, 1)));
+		let r = if c.in_unwind {
+			struct InDrop<'a, F: FnOnce() -> (ThreadKey, bool)> {
+				f: Option<F>,
+				out: &'a std::cell::RefCell<Option<std::thread::Result<(ThreadKey, bool)>>>,
+			}
+			impl<F: FnOnce() -> (ThreadKey, bool)> Drop for InDrop<'_, F> {
+				fn drop(&mut self) {
+					rt::FAULT_IN_UNWIND_OK.with(|x| x.set(true));
+					let r = catch_unwind(AssertUnwindSafe(self.f.take().unwrap()));
+					rt::FAULT_IN_UNWIND_OK.with(|x| x.set(false));
+					*self.out.borrow_mut() = Some(r);
+				}
+			}
+			let out = std::cell::RefCell::new(None);
+			let outer = catch_unwind(AssertUnwindSafe(|| {
+				let _d = InDrop { f: Some(|| interp::acquire(&t, c.write, c.flavour, Body::NONE, key, 1)), out: &out };
+				std::panic::resume_unwind(Box::new(rt::UserPanic(31337)));
+			}));
+			assert!(outer.is_err());
+			out.into_inner().expect("the destructor ran")
+		} else {
+			catch_unwind(AssertUnwindSafe(|| interp::acquire(&t, c.write, c.flavour, Body::NONE, key, 1)))
+		};
 		let n = ctl.disarm();
 		rt::end_call();
 		let fired = ctl.exec.lock().faults_fired.clone();
@@ -295,9 +321,9 @@ pub fn check_c12(tier: &str) -> ! {
 					if !write && !info.sharable {
 						continue;
 					}
-					base.push(FaultCase { spec: s.clone(), assign: a.clone(), flavour: f, write, fault: None, env_script: vec![], poisoned: false });
+					base.push(FaultCase { spec: s.clone(), assign: a.clone(), flavour: f, write, fault: None, env_script: vec![], poisoned: false, in_unwind: false });
 					if crate::seqchecks::has_poisonable(s) {
-						base.push(FaultCase { spec: s.clone(), assign: a.clone(), flavour: f, write, fault: None, env_script: vec![], poisoned: true });
+						base.push(FaultCase { spec: s.clone(), assign: a.clone(), flavour: f, write, fault: None, env_script: vec![], poisoned: true, in_unwind: false });
 					}
 					// hand-over patterns for blocking calls that will have to wait: while the subject is blocked,
 					// another thread takes one more leaf (at the first or at the second wait)
@@ -310,7 +336,7 @@ pub fn check_c12(tier: &str) -> ! {
 									}
 									let mut script = vec![None; step];
 									script.push(Some((pos, excl)));
-									base.push(FaultCase { spec: s.clone(), assign: a.clone(), flavour: f, write, fault: None, env_script: script, poisoned: false });
+									base.push(FaultCase { spec: s.clone(), assign: a.clone(), flavour: f, write, fault: None, env_script: script, poisoned: false, in_unwind: false });
 								}
 							}
 						}
@@ -330,6 +356,14 @@ pub fn check_c12(tier: &str) -> ! {
 			let mut fc = c.clone();
 			fc.fault = Some(FaultSpec::OneShot { index: k });
 			cases.push(fc);
+			// the same one-shot fault when the call is made from a destructor during an unrelated unwind (nothing
+			// pre-held, no hand-over: the fault-free run is the same, so the operation count is too)
+			if c.env_script.is_empty() && !c.poisoned && c.assign.iter().all(|v| *v == 0) {
+				let mut fc = c.clone();
+				fc.fault = Some(FaultSpec::OneShot { index: k });
+				fc.in_unwind = true;
+				cases.push(fc);
+			}
 		}
 	}
 	// persistent faults as in tests/evil_*.rs: a lock whose lock / try / unlock always panics, at every member position
@@ -345,7 +379,7 @@ pub fn check_c12(tier: &str) -> ! {
 						if !write && !info.sharable {
 							continue;
 						}
-						cases.push(FaultCase { spec: s.clone(), assign: vec![0; info.leaves.len()], flavour: f, write, fault: Some(FaultSpec::Persistent { lock: *l, on_lock, on_try, on_unlock }), env_script: vec![], poisoned: false });
+						cases.push(FaultCase { spec: s.clone(), assign: vec![0; info.leaves.len()], flavour: f, write, fault: Some(FaultSpec::Persistent { lock: *l, on_lock, on_try, on_unlock }), env_script: vec![], poisoned: false, in_unwind: false });
 					}
 				}
 			}
@@ -357,7 +391,10 @@ pub fn check_c12(tier: &str) -> ! {
 		rep.add("evaluations", 1);
 		if !o.fired.is_empty() {
 			rep.add("runs_in_which_the_fault_fired", 1);
-			distinct.insert((c.spec.clone(), c.assign.clone(), c.flavour, c.write, c.poisoned, c.env_script.clone(), o.fired[0].1.lock, o.fired[0].1.act as u8, o.fired[0].0));
+			if c.in_unwind {
+				rep.add("faults_fired_inside_a_destructor_during_an_unwind", 1);
+			}
+			distinct.insert((c.spec.clone(), c.assign.clone(), c.flavour, c.write, c.poisoned, c.in_unwind, c.env_script.clone(), o.fired[0].1.lock, o.fired[0].1.act as u8, o.fired[0].0));
 		}
 		for v in &o.violations {
 			rep.violation(Viol { prop: v.prop.to_string(), key: v.key.clone(), detail: v.detail.clone(), replay: json!({"kind": "seq-fault", "case": c}) });
@@ -371,14 +408,16 @@ pub fn check_c12(tier: &str) -> ! {
 	if let Some((c, o)) = cases.iter().zip(&outs).rev().find(|(c, o)| !o.fired.is_empty() && matches!(c.fault, Some(FaultSpec::Persistent { .. }))) {
 		rep.sample(json!({"spec": c.spec.describe(), "api": c.flavour.api(c.write), "fault": c.fault, "first_faulted_op": o.fired[0].1.short()}));
 	}
-	rep.set("rule", "for every (shape x mode x API in {lock+drop, lock+unlock, try_lock+drop, scoped_* with lent/owned key, scoped_try_*} x pre-held pattern): one fault-free run counts the raw operations N, then N runs panic instead of raw operation k (k=0..N-1); plus persistent per-lock faults (lock / try / unlock / combinations always panic) at every member position. Oracle: the call does not return normally; no lock other than one whose own release panicked stays held by the caller; no release is issued for a lock the caller does not hold (owner-table audit); the faulted lock refuses try and panics on blocking acquisition afterwards; no other lock is killed by a one-shot fault. Non-trivial = distinct (case, faulted operation) pairs in which the fault actually fired");
+	rep.set("rule", "for every (shape x mode x API in {lock+drop, lock+unlock, try_lock+drop, scoped_* with lent/owned key, scoped_try_*} x pre-held pattern): one fault-free run counts the raw operations N, then N runs panic instead of raw operation k (k=0..N-1); plus the one-shot faults again with the call made by a destructor that runs during an unrelated unwind (thread::panicking() true throughout; nothing pre-held); plus persistent per-lock faults (lock / try / unlock / combinations always panic) at every member position. Oracle: the call does not return normally; no lock other than one whose own release panicked stays held by the caller; no release is issued for a lock the caller does not hold (owner-table audit); the faulted lock refuses try and panics on blocking acquisition afterwards; no other lock is killed by a one-shot fault. Non-trivial = distinct (case, faulted operation) pairs in which the fault actually fired");
 	let _ = Mode::Excl;
 	rep.finish()
 }
 
 /// C06 under raw-operation faults: whatever way a call ends, the key accounting holds (a guard consumed by an
 /// `unlock*` function whose raw release panics has dropped its key; a scoped call given an owned key has, too).
-pub fn c06_key_after_fault(rep: &mut Report) {
+/// The one-shot fault enumeration over a small shape set, for the neighbouring properties that need a raw panic to
+/// show: C06 (the key is obtainable after the call ended) and C05 (no release the caller is not entitled to).
+pub fn small_fault_sweep(rep: &mut Report, prop: &str) {
 	let mut specs = vec![Spec::R(0), Spec::M(0), Spec::PR(0), Spec::PM(0), Spec::OW(0), Spec::Native(Native::OwnedTupMR)];
 	for k in KINDS {
 		specs.push(Spec::Coll(k, vec![Spec::R(1), Spec::M(0)]));
@@ -393,7 +432,7 @@ pub fn c06_key_after_fault(rep: &mut Report) {
 				if !write && !info.sharable {
 					continue;
 				}
-				base.push(FaultCase { spec: s.clone(), assign: vec![0; info.leaves.len()], flavour: f, write, fault: None, env_script: vec![], poisoned: false });
+				base.push(FaultCase { spec: s.clone(), assign: vec![0; info.leaves.len()], flavour: f, write, fault: None, env_script: vec![], poisoned: false, in_unwind: false });
 			}
 		}
 	}
@@ -408,11 +447,20 @@ pub fn c06_key_after_fault(rep: &mut Report) {
 	}
 	let outs = par_cases(&cases, |_, c| run_fault_case(c, false));
 	for (c, o) in base.iter().zip(&base_out).chain(cases.iter().zip(&outs)) {
-		rep.add("key_accounting_under_raw_faults_cases", 1);
+		rep.add(if prop == "C06" { "key_accounting_under_raw_faults_cases" } else { "release_audit_under_raw_faults_cases" }, 1);
 		for v in &o.violations {
-			if v.prop == "C06" {
+			if prop == "C06" && v.prop == "C06" {
 				rep.violation(Viol { prop: "C06".into(), key: v.key.clone(), detail: v.detail.clone(), replay: json!({"kind": "seq-fault", "case": c}) });
+			}
+			if prop == "C05" && v.prop == "C12" {
+				if let Some(rest) = v.key.strip_prefix("bad-release-after-raw-fault|") {
+					rep.violation(Viol { prop: "C05".into(), key: format!("after-raw-fault:{}", rest), detail: v.detail.clone(), replay: json!({"kind": "seq-fault", "case": c}) });
+				}
 			}
 		}
 	}
+}
+
+pub fn c06_key_after_fault(rep: &mut Report) {
+	small_fault_sweep(rep, "C06")
 }
